@@ -70,13 +70,15 @@ REACH = ["nexusprocessing:escape_nexus_token", "newickwriter:NewickWriter._rende
          "nexuswriter:NexusWriter._set_and_write_translate_block", "nexusreader:NexusReader._parse_trees_block",
          "nexusreader:NexusReader._parse_translate_statement", "nexusreader:NexusReader._parse_taxlabels_statement",
          "nexmlwriter:NexmlWriter._write_tree", "nexmlwriter:_protect_attr", "nexmlreader:_NexmlTreeParser.build_tree"]
-MIN_EVENTS = {"roundtrip": (3000, 150000), "roundtrip:newick": (800, 40000), "roundtrip:nexus": (800, 40000),
-              "roundtrip:nexml": (500, 20000), "node-compared": (10000, 1000000),
-              "hook:Tree.as_string:return": (500, 20000), "hook:TreeList.as_string:return": (300, 10000),
-              "hook:Tree.get:return": (300, 10000), "hook:TreeList.get:return": (200, 10000),
-              "hook:NewickWriter._render_node_tag:return": (5000, 500000),
-              "hook:nexusprocessing.escape_nexus_token:return": (5000, 500000),
-              "hook:Tokenizer.__next__:return": (20000, 2000000)}
+MIN_EVENTS = {"roundtrip": (25000, 300000), "roundtrip:newick": (8000, 100000), "roundtrip:nexus": (8000, 100000),
+              "roundtrip:nexml": (3000, 40000), "node-compared": (150000, 5000000), "tree-compared": (30000, 400000),
+              "roundtrip-pair:translate": (1000, 10000), "roundtrip-pair:uu+ps/pu": (2000, 20000),
+              "roundtrip-pair:internal-taxa": (1000, 10000), "weight-compared": (1000, 20000),
+              "hook:Tree.as_string:return": (20000, 200000), "hook:TreeList.as_string:return": (5000, 100000),
+              "hook:Tree.get:return": (15000, 200000), "hook:TreeList.get:return": (5000, 100000),
+              "hook:NewickWriter._render_node_tag:return": (100000, 5000000),
+              "hook:nexusprocessing.escape_nexus_token:return": (100000, 5000000),
+              "hook:Tokenizer.__next__:return": (500000, 20000000)}
 ASSUMPTIONS = ["source trees are built through Tree/Node constructors and add_child (no parser involved)",
                "both sides are read from the raw _child_nodes lists into DendroPy-free specs before comparison",
                "'matching reader options' are the pairs listed in vf/props/_c02_util.PAIRS"]
@@ -123,7 +125,7 @@ def cases(tier, seed):
                 if n == 5 and (idx + U.SCHEMAS.index(schema)) % 3 != seed % 3:
                     continue
                 yield {"kind": "shape", "n": n, "idx": idx, "schema": schema, "seed": seed}
-    nrand = 5000 if tier == "quick" else 280000
+    nrand = 12000 if tier == "quick" else 280000
     for i in range(nrand):
         yield {"kind": "random", "i": i, "seed": seed}
 
